@@ -41,6 +41,12 @@ CHECKS = {
  "C07": dict(cat="model_checking", eng="e1h", tech="exhaustive enumeration of action sequences on held handles interleaved with structural mutations, from every reachable sibling-tree shape / slot assignment, against the reference model",
    text="Start states are all distinct images the library can produce by creating and removing 3-4 sibling streams (every sibling-tree shape and directory-slot assignment, found by BFS on images); handles are opened on every choice of one or two streams; then every action sequence up to depth 3-4 over handle writes, appends, flushes, set_len, read-all and structural operations on other entries (remove, overwrite, create stream, create storage) is run. Handle results are checked at each call; at the forced quiescent end the whole file is compared with the model, judged by the independent checker and parser, and reopened strictly.",
    note="A held stream is never removed or overwritten through another path. Trusted: reference model, independent parser.", ref="4 E1h"),
+ "C09": dict(cat="model_checking", eng="e1n", tech="exhaustive enumeration over a Unicode name alphabet: every name x creation call, every ordered selection of sibling names x every removal order, every path spelling x API call, on the real code against independent name rules",
+   text="(a) Every name of the alphabet (22 base names: ASCII, cased and caseless non-ASCII, exceptional upper-casing, private use, fullwidth, supplementary plane; three families of every length 1..40 UTF-16 units; each of / \\ : ! embedded) goes through every creation call at two depths with the full oracle (model including lookups under every case variant, image unchanged on refusal, independent checker reading the 64-byte field, reopen). (b) Every ordered selection of 3-5 pairwise case-distinct names is inserted in that order with the full oracle after each insertion (listing order = independent shortlex-by-code-unit order, so antisymmetry/transitivity of the library's comparison are checked over all triples), then collisions up to case, then every removal order. (c) Every path spelling x every API call, including escaping and non-UTF-8 paths.",
+   note="Upper-casing is judged only on the explicit table in names.rs; Unicode outside the alphabet is not covered.", ref="4 E1n"),
+ "C17": dict(cat="model_checking", eng="e1m", tech="exhaustive enumeration of value alphabets x object kinds x directory positions x versions on the real code, with independent FILETIME arithmetic and reopen",
+   text="Every setter x every value (19 CLSIDs, 37 state words, 130-3300 instants around the Unix epoch, 1601, the FILETIME saturation point, far future and pre-1601 with sub-100ns offsets on both sides) x object kind (root, storage, stream) x directory position (first, second, third directory sector) x version, plus all ordered pairs of setter kinds on one object, setters on missing paths, CLSID on streams, and touch; values are read back through entry and listings, after reopening in both modes and by the independent parser from the raw bytes; time setters must leave stream entries byte-identical; a new storage's times must lie inside the clock window.",
+   note="Expected FILETIMEs are computed in i128 in the harness. Values outside the alphabets are not covered.", ref="4 E1m"),
 }
 
 NOT_YET = {
@@ -75,6 +81,8 @@ def main():
             "add_only": True,
         },
         "engines": [
+            {"name": "e1n", "path": "/verif/harness/src/e1n.rs", "serves_properties": ["C09"], "kind_free_text": "name / path alphabet enumeration on the E1 step executor"},
+            {"name": "e1m", "path": "/verif/harness/src/checks.rs", "serves_properties": ["C17"], "kind_free_text": "metadata value alphabet enumeration on the E1 step executor"},
             {"name": "e1h", "path": "/verif/harness/src/e1h.rs", "serves_properties": ["C07"], "kind_free_text": "handle/structure interleaving enumeration from all reachable directory shapes"},
             {"name": "e6", "path": "/verif/harness/src/e6.rs", "serves_properties": ["C14"], "kind_free_text": "controlled scheduler (baton passing) over the instrumented RwLock; preemption-bounded DFS of schedules"},
             {"name": "e4", "path": "/verif/harness/src/e4.rs", "serves_properties": ["C12", "C13", "C18"], "kind_free_text": "fault / short-count / interruption enumeration at every underlying call index on the generic backend"},
